@@ -90,7 +90,7 @@ def check_limited(case):
     J, r, dt = case["J"], case["rnuc"], case["dt"]
     b = p.PSDbounds
     N = len(n)
-    p.getdXdtEuler(g, J, r, n)
+    d_raw = np.array(p.getdXdtEuler(g, J, r, n), dtype=float)
     d = np.array(p.correctdXdtEuler(dt, g, J, r, n), dtype=float)
     net = np.array(p._netFlux, dtype=float)
     L, F, src = ref.limited(b, n, g, dt)
@@ -105,6 +105,14 @@ def check_limited(case):
             break
     if scaled:
         out.label("two_sided_loss_scaled")
+    # the correction only limits fluxes: when no face needs limiting, the corrected rate is the uncorrected one - nucleation term
+    # included, wherever the nucleation radius lies (inside, below or above the grid)
+    if not scaled and all(s is None or abs(F[k]) * dt <= n[s] * (1 - 1e-9) for k, s in enumerate(src)):
+        out.label("no_face_limited")
+        if d.shape != d_raw.shape or np.any(np.abs(d - d_raw) > 1e-12 * (np.abs(d_raw) + abs(J)) + 1e-300):
+            i = int(np.argmax(np.abs(d - d_raw))) if d.shape == d_raw.shape else -1
+            out.fail("correction_changes_unlimited_rate", "no face needs limiting at dt=%r, but the corrected rate differs from the uncorrected one in class %d: %r vs %r (nucleation radius %r, grid [%r, %r], rate %r)"
+                     % (dt, i, float(d[i]), float(d_raw[i]), r, float(b[0]), float(b[-1]), J), cls=i)
     for k in range(N + 1):
         s = src[k]
         if s is None:
